@@ -18,7 +18,7 @@ from incomplete_cooperative.run.model import ModelInstance
 from incomplete_cooperative.solvers import SOLVERS
 
 COMP = {"superadditive": ("sa", 0), "superadditive_cached": ("sac", 0), "sam_apx_1": ("sam", 1), "sam_apx_10": ("sam", 10)}
-CONTINUOUS = {"noisy_factory", "noisy_factory_square", "noisy_factory_exp", "xos", "xos2", "xos12", "xs", "oxs", "graph"}
+CONTINUOUS = {"noisy_factory", "noisy_factory_square", "noisy_factory_exp", "xos", "xos2", "xos12", "xs", "xs2", "xs3", "oxs", "graph"}
 
 
 class Recorder:
@@ -81,8 +81,8 @@ def main():
         traces = []
         for ci in range(a.configs):
             solver_name = ["greedy", "random", "largest", "greedy_worst"][ci % 4]
-            gen = ["factory", "noisy_factory", "xos", "noisy_factory_square", "oxs", "factory_square"][ci % 6]
-            sam_family = gen.startswith(("xos", "oxs"))
+            gen = ["factory", "noisy_factory", "xos", "xs2", "noisy_factory_square", "oxs", "factory_square", "xs3"][ci % 8]
+            sam_family = gen.startswith(("xos", "oxs", "xs"))
             cls = rng.choice(["superadditive", "superadditive_cached"] + (["sam_apx_1"] if sam_family else []))
             gap = rng.choice(["exploitability", "l1_norm", "linf_norm", "l2_norm"])
             steps = rng.randint(1, 2 ** n - n - 2)
